@@ -186,6 +186,21 @@ pub fn conv_ty(t: &Type, adts: &dyn Fn(&str) -> Option<Ty>, generics: &BTreeSet<
                 Ok(Ty::Tuple(tt.elems.iter().map(|x| conv_ty(x, adts, generics, self_ty)).collect::<R<Vec<_>>>()?))
             }
         }
+        Type::TraitObject(to) => {
+            // `dyn Trait` where `Trait` is configured as an `extern` type (its methods are Coq functions of the value)
+            for b in to.bounds.iter() {
+                if let TypeParamBound::Trait(tb) = b {
+                    if let Some(s) = tb.path.segments.last() {
+                        if let Some(t) = adts(&s.ident.to_string()) {
+                            if matches!(t, Ty::Extern(_)) {
+                                return Ok(t);
+                            }
+                        }
+                    }
+                }
+            }
+            Err(unsupported(t, "trait object type (only `dyn Trait` for a trait configured with an `extern` line)"))
+        }
         Type::Infer(_) => Ok(Ty::Infer),
         Type::BareFn(f) => {
             let mut a = vec![];
@@ -230,6 +245,10 @@ pub fn conv_ty(t: &Type, adts: &dyn Fn(&str) -> Option<Ty>, generics: &BTreeSet<
             if let Some(i) = IntTy::from_name(&name) {
                 return Ok(Ty::Int(Some(i)));
             }
+            if name == "char" && p.path.segments.len() == 1 {
+                // a `char` is its code point
+                return Ok(Ty::Int(Some(IntTy::U32)));
+            }
             if p.path.segments.len() == 2 && p.path.segments[0].ident == "Self" && matches!(seg.arguments, PathArguments::None) {
                 // `Self::Assoc` where the impl says `type Assoc = <integer type>;`
                 if let Some(t) = adts(&format!("Self::{}", name)) {
@@ -241,6 +260,28 @@ pub fn conv_ty(t: &Type, adts: &dyn Fn(&str) -> Option<Ty>, generics: &BTreeSet<
                 let full: String = quote::ToTokens::to_token_stream(seg).to_string().chars().filter(|c| !c.is_whitespace()).collect();
                 if let Some(t) = adts(&full) {
                     return Ok(t);
+                }
+                // the same with the type arguments reduced to their configured keys, lifetimes dropped
+                // (`SubImage<'_, ImageRaw<BinaryColor>>` -> `SubImage<ImageRaw>`)
+                if let PathArguments::AngleBracketed(a) = &seg.arguments {
+                    let mut keys = vec![];
+                    let mut ok = true;
+                    for g in a.args.iter() {
+                        match g {
+                            GenericArgument::Lifetime(_) => {}
+                            GenericArgument::Type(x) => match conv_ty(x, adts, generics, self_ty) {
+                                Ok(Ty::Adt(k)) => keys.push(k),
+                                Ok(Ty::Int(Some(i))) => keys.push(i.name().to_string()),
+                                _ => ok = false,
+                            },
+                            _ => ok = false,
+                        }
+                    }
+                    if ok && !keys.is_empty() {
+                        if let Some(t) = adts(&format!("{}<{}>", name, keys.join(","))) {
+                            return Ok(t);
+                        }
+                    }
                 }
             }
             if p.path.segments.len() >= 2 && matches!(seg.arguments, PathArguments::None) {
